@@ -476,6 +476,31 @@ def accF : List (FieldInfo × Ty) → Bool
 termination_by structural fs => fs
 end
 
+/-- a `None`-class alternative of a union is `None` itself (not a NewType of / an annotated `None`) -/
+def sideOk (t : Ty) : Bool := (t.factoryCls != some .null) || t.isNull
+
+mutual
+/-- scope of the acceptance and no-crash theorems, version 2: as `Ty.acc`, with unions of any shape at any depth
+    (at least one alternative that is not `None`) -/
+def Ty.accU : Ty → Bool
+  | .list t | .vtuple t | .newtype _ t | .ann _ t => t.accU
+  | .set _ | .frozenset _ => false
+  | .tuple ts => accUL ts
+  | .mapping k v => k.accU && v.accU
+  | .union ts => accUL ts && ts.all sideOk && !ts.all Ty.isNull
+  | .obj _ fs => distinctStrs (aliasesOf fs) && accUF fs
+  | _ => true
+termination_by structural t => t
+def accUL : List Ty → Bool
+  | [] => true
+  | t :: ts => t.accU && accUL ts
+termination_by structural ts => ts
+def accUF : List (FieldInfo × Ty) → Bool
+  | [] => true
+  | (f, t) :: fs => !f.fbod && t.accU && accUF fs
+termination_by structural fs => fs
+end
+
 theorem wfL_mem : ∀ {xs : List Py}, wfL xs = true → ∀ x ∈ xs, x.wf = true
   | [], _, x, hx => by cases hx
   | y :: ys, h, x, hx => by
@@ -645,6 +670,54 @@ theorem accOpt_cases {ts : List Ty} (h : accOpt ts = true) :
     exact ⟨t, rfl, h.1, h.2⟩
   · cases h
 
+/-- version 1 of the scope is inside version 2 -/
+theorem acc_accU :
+    (∀ t : Ty, t.acc = true → t.accU = true) ∧
+    (∀ fs : List (FieldInfo × Ty), accF fs = true → accUF fs = true) ∧
+    (∀ ts : List Ty, accOpt ts = true → (accUL ts && ts.all sideOk && !ts.all Ty.isNull) = true) ∧
+    (∀ ts : List Ty, accL ts = true → accUL ts = true) := by
+  apply Ty.acc.mutual_induct
+  · intro t ih h; rw [Ty.acc] at h; rw [Ty.accU]; exact ih h
+  · intro t ih h; rw [Ty.acc] at h; rw [Ty.accU]; exact ih h
+  · intro n t ih h; rw [Ty.acc] at h; rw [Ty.accU]; exact ih h
+  · intro c t ih h; rw [Ty.acc] at h; rw [Ty.accU]; exact ih h
+  · intro t h; rw [Ty.acc] at h; cases h
+  · intro t h; rw [Ty.acc] at h; cases h
+  · intro ts ih h; rw [Ty.acc] at h; rw [Ty.accU]; exact ih h
+  · intro k v ihk ihv h; rw [Ty.acc, Bool.and_eq_true] at h; rw [Ty.accU, ihk h.1, ihv h.2]; rfl
+  · intro ts ih h; rw [Ty.acc] at h; rw [Ty.accU]; exact ih h
+  · intro c fs ih h; rw [Ty.acc, Bool.and_eq_true] at h; rw [Ty.accU, h.1, ih h.2]; rfl
+  · -- every other constructor: both scopes are `true`
+    intro t h1 h2 h3 h4 h5 h6 h7 h8 h9 h10 _
+    cases t
+    any_goals rfl
+    all_goals exfalso
+    any_goals exact h1 _ rfl
+    any_goals exact h2 _ rfl
+    any_goals exact h3 _ _ rfl
+    any_goals exact h4 _ _ rfl
+    any_goals exact h5 _ rfl
+    any_goals exact h6 _ rfl
+    any_goals exact h7 _ rfl
+    any_goals exact h8 _ _ rfl
+    any_goals exact h9 _ rfl
+    any_goals exact h10 _ _ rfl
+  · intro t ih h
+    obtain ⟨t', he, hacc, hcls⟩ := accOpt_cases h
+    simp only [List.cons.injEq, and_true] at he; subst he
+    have hn : t.isNull = false := by cases t <;> first | rfl | (simp [Ty.factoryCls] at hcls)
+    simp [accUL, ih hacc, Ty.accU, sideOk, hcls]
+    exact ⟨Or.inr rfl, Or.inl hn⟩
+  · intro ts hne h
+    obtain ⟨t', he, _, _⟩ := accOpt_cases h
+    exact absurd he (fun h => hne t' h)
+  · intro _; rfl
+  · intro t ts iht ihts h; rw [accL, Bool.and_eq_true] at h; rw [accUL, iht h.1, ihts h.2]; rfl
+  · intro _; rfl
+  · intro f t fs iht ihfs h
+    rw [accF] at h; simp only [Bool.and_eq_true, Bool.not_eq_true'] at h
+    rw [accUF, h.1.1, iht h.1.2, ihfs h.2]; rfl
+
 /-- **C01 (acceptance), version 1.** For every type in `Ty.acc`, every inherited constraint set, every
     value of `additional_properties`, `no_copy` and `override_dataclass_constructors`, and every datum
     with distinct object keys, the compiled method returns a value exactly when the datum conforms. -/
@@ -764,10 +837,66 @@ theorem failure_mappingSel (o c k v) :
 theorem failure_objSel (o ci c fs) : (objSel o ci c fs).failure? = failureF fs := by
   unfold objSel; dsimp only; split <;> rw [Meth.failure?]
 
-theorem compile_noFail (o : DOpts) :
-    (∀ cs t, t.acc = true → (compile o cs t).failure? = Option.none) ∧
-    (∀ fs, accF fs = true → failureF (compileF o fs) = Option.none) ∧
-    (∀ cs ts, accL ts = true → failureL (compileL o cs ts) = Option.none) := by
+/-- some alternative is not of class `NoneType`: `next(...)` in `union()` finds it -/
+theorem find_nonNull (o : DOpts) (cs : Constraints) : ∀ ts : List Ty, ts.all sideOk = true → ts.all Ty.isNull = false →
+    (((clsL ts).zip (compileL o cs ts)).find? (fun p => p.1 != some JClass.null)).isSome = true
+  | [], _, h => by simp at h
+  | t :: ts, hs, hn => by
+    rw [clsL, compileL, List.zip_cons_cons, List.find?_cons]
+    rw [List.all_cons, Bool.and_eq_true] at hs
+    cases hc : (t.factoryCls != some JClass.null) with
+    | true => rfl
+    | false =>
+      simp only
+      have ht : t.isNull = true := by
+        have := hs.1; unfold sideOk at this; rw [hc, Bool.false_or] at this; exact this
+      rw [List.all_cons, ht, Bool.true_and] at hn
+      exact find_nonNull o cs ts hs.2 hn
+
+theorem failureT_zip : ∀ (known : List JClass) (ms : List Meth), failureL ms = Option.none →
+    failureT (known.zip ms) = Option.none
+  | [], _, _ => by rw [List.zip_nil_left, failureT]
+  | _ :: _, [], _ => by rw [List.zip_nil_right, failureT]
+  | c :: known, m :: ms, h => by
+    rw [failureL] at h
+    cases hm : m.failure? with
+    | some e => rw [hm] at h; cases h
+    | none =>
+      rw [hm] at h
+      rw [List.zip_cons_cons, failureT, hm]
+      exact failureT_zip known ms h
+
+theorem failureL_mem : ∀ {ms : List Meth}, failureL ms = Option.none → ∀ m ∈ ms, m.failure? = Option.none
+  | m' :: ms, h, m, hm => by
+    rw [failureL] at h
+    cases hm' : m'.failure? with
+    | some e => rw [hm'] at h; cases h
+    | none =>
+      rw [hm'] at h
+      rcases List.mem_cons.1 hm with rfl | hmem
+      · exact hm'
+      · exact failureL_mem h m hmem
+
+theorem failure_unionSel {clss : List (Option JClass)} {hasNone : Bool} {ms : List Meth}
+    (hfind : ((clss.zip ms).find? (fun p => p.1 != some JClass.null)).isSome = true)
+    (h : failureL ms = Option.none) : (unionSel clss hasNone ms).failure? = Option.none := by
+  unfold unionSel
+  simp only
+  split
+  · split
+    · next p m hf =>
+      rw [Meth.failure?]
+      exact failureL_mem h m (List.of_mem_zip (List.mem_of_find?_eq_some hf)).2
+    · next hf => rw [hf] at hfind; cases hfind
+  · split
+    · rw [Meth.failure?]; exact failureT_zip _ ms h
+    · rw [Meth.failure?]; exact h
+
+/-- no exception while the method tree is built, over the scope `Ty.accU` -/
+theorem compile_noFailU (o : DOpts) :
+    (∀ cs t, t.accU = true → (compile o cs t).failure? = Option.none) ∧
+    (∀ fs, accUF fs = true → failureF (compileF o fs) = Option.none) ∧
+    (∀ cs ts, accUL ts = true → failureL (compileL o cs ts) = Option.none) := by
   apply compile.mutual_induct
   · intro cs _; rw [compile]; rfl
   · intro cs _; rw [compile]; rfl
@@ -778,44 +907,44 @@ theorem compile_noFail (o : DOpts) :
   · intro cs h _; rw [compile, if_pos h]; rfl
   · intro cs h _; rw [compile, if_neg h]; rfl
   · intro cs _; rw [compile]; rfl
-  · intro cs t ih hs; rw [Ty.acc] at hs; rw [compile, failure_listSel]; exact ih hs
-  · intro cs t _ hs; rw [Ty.acc] at hs; cases hs
-  · intro cs t _ hs; rw [Ty.acc] at hs; cases hs
-  · intro cs t ih hs; rw [Ty.acc] at hs; rw [compile, Meth.failure?, failure_listSel]; exact ih hs
-  · intro cs ts ih hs; rw [Ty.acc] at hs; rw [compile, Meth.failure?]; exact ih hs
+  · intro cs t ih hs; rw [Ty.accU] at hs; rw [compile, failure_listSel]; exact ih hs
+  · intro cs t _ hs; rw [Ty.accU] at hs; cases hs
+  · intro cs t _ hs; rw [Ty.accU] at hs; cases hs
+  · intro cs t ih hs; rw [Ty.accU] at hs; rw [compile, Meth.failure?, failure_listSel]; exact ih hs
+  · intro cs ts ih hs; rw [Ty.accU] at hs; rw [compile, Meth.failure?]; exact ih hs
   · intro cs k v ihk ihv hs
-    rw [Ty.acc, Bool.and_eq_true] at hs
+    rw [Ty.accU, Bool.and_eq_true] at hs
     rw [compile, failure_mappingSel, ihk hs.1, ihv hs.2]; rfl
   · intro cs ts ih hs
-    rw [Ty.acc] at hs
-    obtain ⟨t, rfl, hacc, hcls⟩ := accOpt_cases hs
-    have hl := ih (by rw [accL, accL, accL]; simp [hacc, Ty.acc])
-    rw [compileL, failureL, compileL, failureL, compileL, failureL] at hl
-    rw [compile, compileL, compileL, compileL, clsL, clsL, clsL, anyNull, anyNull, anyNull]
-    have hsel : unionSel [t.factoryCls, Ty.null.factoryCls] (t.isNull || (Ty.null.isNull || false))
-        [compile o cs t, compile o cs Ty.null] = .optional (compile o cs t) := by
-      unfold unionSel
-      simp [Ty.isNull, hcls]
-    rw [hsel, Meth.failure?]
-    cases h : (compile o cs t).failure? with
-    | none => rfl
-    | some e => rw [h] at hl; cases hl
+    rw [Ty.accU] at hs
+    simp only [Bool.and_eq_true, Bool.not_eq_true', Bool.not_eq_eq_eq_not, Bool.not_true] at hs
+    rw [compile]
+    exact failure_unionSel (find_nonNull o cs ts hs.1.2 hs.2) (ih hs.1.1)
   · intro cs vs _; rw [compile]; rfl
   · intro cs c ms _; rw [compile]; rfl
-  · intro cs n t ih hs; rw [Ty.acc] at hs; rw [compile]; exact ih hs
-  · intro cs c t ih hs; rw [Ty.acc] at hs; rw [compile]; exact ih hs
+  · intro cs n t ih hs; rw [Ty.accU] at hs; rw [compile]; exact ih hs
+  · intro cs c t ih hs; rw [Ty.accU] at hs; rw [compile]; exact ih hs
   · intro cs ci fs ih hs
-    rw [Ty.acc, Bool.and_eq_true] at hs
+    rw [Ty.accU, Bool.and_eq_true] at hs
     rw [compile, failure_objSel]; exact ih hs.2
   · intro cs _; rw [compileL, failureL]
   · intro cs t ts iht ihts hs
-    rw [accL, Bool.and_eq_true] at hs
+    rw [accUL, Bool.and_eq_true] at hs
     rw [compileL, failureL, iht hs.1, ihts hs.2]; rfl
   · intro _; rw [compileF, failureF]
   · intro f t fs iht ihfs hs
-    rw [accF] at hs
+    rw [accUF] at hs
     simp only [Bool.and_eq_true, Bool.not_eq_true'] at hs
     rw [compileF, failureF, iht hs.1.2, ihfs hs.2]; rfl
+
+
+theorem compile_noFail (o : DOpts) :
+    (∀ cs t, t.acc = true → (compile o cs t).failure? = Option.none) ∧
+    (∀ fs, accF fs = true → failureF (compileF o fs) = Option.none) ∧
+    (∀ cs ts, accL ts = true → failureL (compileL o cs ts) = Option.none) :=
+  ⟨fun cs t ha => (compile_noFailU o).1 cs t (acc_accU.1 t ha),
+   fun fs ha => (compile_noFailU o).2.1 fs (acc_accU.2.1 fs ha),
+   fun cs ts ha => (compile_noFailU o).2.2 cs ts (acc_accU.2.2.2 ts ha)⟩
 
 /-- **C01 (acceptance), entry point.** `deserialize(T, data)` returns a value iff `data` conforms to `T`,
     for every `T` in scope, every inherited constraint set, `additional_properties`, `no_copy`,
